@@ -143,7 +143,7 @@ def main():
     json.dump(m, open('/verif/MANIFEST.json', 'w'), indent=1)
     print('MANIFEST.json written:', len(checks), 'checks,', len(na), 'not claimed')
 
-HOOK_COMMITS = ['2f6c793']
+HOOK_COMMITS = ['2f6c793', 'd487fd0']
 ENGINES = [
  {'name': 'E-RUN', 'path': 'harness/engines/run', 'serves_properties': ALL, 'kind_free_text': 'case runner: seeds, child processes with write-ahead log, verdicts, evidence, known findings'},
  {'name': 'E-CHW', 'path': 'harness/engines/chw', 'serves_properties': ['C01','C02','C03','C04','C05','C06'], 'kind_free_text': 'fake ClickHouse insert client with fault scripts and a logically-clocked ledger; in-process assembly of the real writer'},
